@@ -235,7 +235,7 @@ def _shard(args) -> dict[str, Any]:
             for case in mod.enumerate_cases(tier, shard, nshards):
                 coll.run_case(case, "enum")
         bud = mod.budget(tier)
-        n = bud.get("examples", 0)
+        n = int(bud.get("examples", 0) * float(os.environ.get("VERIF_EXAMPLES_SCALE", "1")))  # scale: development smoke tests only
         per = (n + nshards - 1) // nshards
         if per > 0:
             strat = mod.strategy(tier)
